@@ -439,8 +439,11 @@ def _literal_target(fn, lit):
 
 
 def units():
+    # the lowering hands the tree to simplify_ast: the functions under contract for C06 are functions this
+    # property depends on, so their obligations are part of this check too
+    from . import c06
     return [FunctionUnit(StatementToAst()), FunctionUnit(ConditionalToAst()), FunctionUnit(LoopToAst()),
-            FunctionUnit(CreateAst())]
+            FunctionUnit(CreateAst())] + c06.units()
 
 
 LEVEL = "proof"
